@@ -80,6 +80,8 @@ struct Ring {
     stale: Option<EventFd>,
     /// kicks raised on the current descriptor that no dispatch has answered yet
     pending: u64,
+    /// kicks ever raised on the current descriptor
+    raised: u64,
     /// dispatch count at the last (de)activation / check
     dispatched: usize,
 }
@@ -97,6 +99,8 @@ pub struct Machine<V: VringT<dmn::Mem> + Clone + Send + Sync + 'static> {
     /// VHOST_USER_F_PROTOCOL_FEATURES acknowledged by the last SET_FEATURES (cleared by RESET_DEVICE)
     acked_pf: bool,
     pub trace: Vec<String>,
+    /// eventfds of stopped rings the "frontend" keeps open until the end of the history
+    kept_open: Vec<EventFd>,
     two_workers: bool,
 }
 
@@ -113,7 +117,7 @@ impl<V: VringT<dmn::Mem> + Clone + Send + Sync + 'static> Machine<V> {
             report::inconclusive(&format!("negotiate: {e}"));
             return None;
         }
-        Some(Machine { s, fe, rings: vec![Ring::default(), Ring::default()], acked_pf: true, trace: Vec::new(), two_workers })
+        Some(Machine { s, fe, rings: vec![Ring::default(), Ring::default()], acked_pf: true, trace: Vec::new(), kept_open: Vec::new(), two_workers })
     }
 
     fn owner(&self, r: usize) -> (usize, u16) {
@@ -159,8 +163,13 @@ impl<V: VringT<dmn::Mem> + Clone + Send + Sync + 'static> Machine<V> {
                 // the old descriptor is closed on our side as a frontend would do; kicks raised on
                 // it are gone with it
                 self.rings[r].kick = Some(fd);
-                self.rings[r].stale = None;
+                // the eventfd of the stopped ring stays open on the frontend's side (it merely stops
+                // being this ring's kick descriptor)
+                if let Some(old) = self.rings[r].stale.take() {
+                    self.kept_open.push(old);
+                }
                 self.rings[r].pending = 0;
+                self.rings[r].raised = 0;
                 if !self.rings[r].started {
                     self.rings[r].started = true;
                 }
@@ -207,6 +216,7 @@ impl<V: VringT<dmn::Mem> + Clone + Send + Sync + 'static> Machine<V> {
                 if let Some(k) = &self.rings[r].kick {
                     let _ = k.write(1);
                     self.rings[r].pending += 1;
+                    self.rings[r].raised += 1;
                 } else if let Some(k) = &self.rings[r].stale {
                     // a kick on the descriptor of the stopped ring: nothing may come of it
                     let _ = k.write(1);
@@ -233,6 +243,11 @@ impl<V: VringT<dmn::Mem> + Clone + Send + Sync + 'static> Machine<V> {
         // epoll_wait and the event log stable" is a final state, not a timing assumption)
         match self.s.quiesce_ex() {
             dmn::Quiet::Yes => {}
+            dmn::Quiet::Spin => {
+                // a worker burns CPU without dispatching anything: the dispatch counts below are still
+                // final (the event log is stable); the history goes on
+                report::observe("worker-spins-without-dispatching", jo! {"history" => self.trace.clone()});
+            }
             dmn::Quiet::Timeout => {
                 report::inconclusive("workers did not quiesce");
                 return None;
@@ -245,7 +260,17 @@ impl<V: VringT<dmn::Mem> + Clone + Send + Sync + 'static> Machine<V> {
                         return Some(("C11:inactive-ring:dispatched".to_string(), jo! {"ring" => r, "started" => self.rings[r].started, "enabled" => self.rings[r].enabled, "dispatch_storm" => true, "dispatches_while_inactive" => n - self.rings[r].dispatched}));
                     }
                 }
-                report::inconclusive("dispatch storm on a ring the model considers active");
+                // an active ring: the handler is entered far more often than kicks were ever raised
+                // on its current descriptor
+                for r in 0..2 {
+                    let n = self.dispatches(r);
+                    let ring = &self.rings[r];
+                    if ring.active() && ring.dispatched != usize::MAX && n.saturating_sub(ring.dispatched) as u64 > ring.raised + 1000 {
+                        return Some(("C11:active-ring:dispatched-without-kick".to_string(), jo! {"ring" => r, "dispatch_storm" => true,
+                            "kicks_raised_on_current_descriptor" => ring.raised, "dispatches_since_activation" => n - ring.dispatched}));
+                    }
+                }
+                report::inconclusive("dispatch storm that the model cannot attribute");
                 return None;
             }
         }
